@@ -176,7 +176,7 @@ pub fn sweep_case(ctx: &Ctx, case: u64, acc: &mut Acc, arm: Arm) -> Verdict {
         .collect();
     let downs: Vec<Member<Id>> = (0..n_down).map(|i| Member::new(Id::new(200 + i as u16 * 4 + r.below(3) as u16, 0), *r.pick(&[0u16, 5]), State::Down)).collect();
     let n_items = r.range(0, 4) as usize;
-    let items: Vec<Vec<u8>> = (0..n_items).map(|i| make_item(1000 + i as u32, i as u8, 1, r.range(6, 40) as usize, 0xA0 + i as u8)).collect();
+    let items: Vec<Vec<u8>> = (0..n_items).map(|i| make_item(1000 + i as u32, i as u8, 1, if r.chance(1, 4) { r.range(1, 5) } else { r.range(6, 40) } as usize, 0xA0 + i as u8)).collect();
     let plan = Plan { codec, kind, actives, downs, items, notify_down: true, tx: *r.pick(&[1u8, 2, 10]), k: r.range(1, 3) as usize, seed: r.next() };
     // header length of the datagram of interest: measure with a generous size first
     let mut scratch = Acc::default();
